@@ -1257,6 +1257,12 @@ func (nz *normaliser) hoist(st ast.Stmt) []ast.Stmt {
 			if as, isAs := st.(*ast.AssignStmt); isAs && as.Tok != token.ASSIGN && as.Tok != token.DEFINE && len(as.Lhs) == 1 && pureSyntax(as.Lhs[0]) {
 				continue // `x -= h(y)`: neither
 			}
+			if _, isRange := st.(*ast.RangeStmt); isRange {
+				continue // `for … := range h(x)`: the operand is evaluated once, before the loop
+			}
+			if _, isSw := st.(*ast.SwitchStmt); isSw {
+				continue // `switch h(x) {`
+			}
 			if _, isIf := st.(*ast.IfStmt); !isIf {
 				return nil
 			}
